@@ -62,6 +62,21 @@ class NoneRenderer(error.RenderableError):
         return None
 
 
+class Unprintable(Exception):
+    """An application exception that cannot even be printed."""
+
+    def __repr__(self):
+        raise RuntimeError(MARK + "-repr")
+
+    def __str__(self):
+        raise RuntimeError(MARK + "-str")
+
+
+class UnprintableArg:
+    def __repr__(self):
+        raise RuntimeError(MARK + "-argrepr")
+
+
 def outcomes():
     """name -> (callable producing the outcome, expected (code, payload) or 'bare500' or 'default')"""
     o = {}
@@ -82,6 +97,8 @@ def outcomes():
         o["raise-" + exc.__name__] = (lambda exc=exc: (_ for _ in ()).throw(exc(MARK + "-" + exc.__name__)), "bare500")
     for nm, val in (("None", None), ("bytes", (MARK + "b").encode()), ("str", MARK + "s"), ("int", 0), ("dict", {})):
         o["ret-" + nm] = (lambda val=val: val, "bare500")
+    o["raise-unprintable"] = (lambda: (_ for _ in ()).throw(Unprintable()), "bare500")
+    o["raise-unprintable-arg"] = (lambda: (_ for _ in ()).throw(ValueError(UnprintableArg())), "bare500")
     o["raise-quacking"] = (lambda: (_ for _ in ()).throw(QuacksRenderable()), "bare500")
     o["raise-wrapped-response"] = (lambda: (_ for _ in ()).throw(
         error.ResponseWrappingError(Message(code=codes.FORBIDDEN, payload=(MARK + "-wrapped").encode()))), "bare500")
